@@ -188,21 +188,49 @@ func runIdxKeyType(c *core.Ctx) {
 			if !ok1 || !ok2 {
 				return
 			}
-			k, ok := an.ConstInt(w)
-			if !ok {
-				return
-			}
-			n++
 			// the dynamic type stored in the interface: strip the boxing only
 			tv := v
 			if mi, ok := tv.(*ssa.MakeInterface); ok {
 				tv = mi.X
 			}
-			t := types.TypeString(tv.Type(), nil)
-			if byWhat[k] == nil {
-				byWhat[k] = map[string][]string{}
+			if _, isTP := tv.Type().(*types.TypeParam); isTP {
+				return // the generic body; its instantiations are looked at
 			}
-			byWhat[k][t] = append(byWhat[k][t], fname(c, fn)+"@"+P.Pos(a.Pos()))
+			t := types.TypeString(tv.Type(), nil)
+			var ks []int64
+			if k, ok := an.ConstInt(w); ok {
+				ks = append(ks, k)
+			} else if par, isPar := w.(*ssa.Parameter); isPar {
+				// a key-building helper: the kind is what its callers pass
+				pi := -1
+				for i, fp := range fn.Params {
+					if fp == par {
+						pi = i
+					}
+				}
+				for _, caller := range P.ModFuncs {
+					for _, ci := range calls(caller) {
+						if an.StaticCallee(ci.Common()) != fn || pi < 0 {
+							continue
+						}
+						k, ok := an.ConstInt(ci.Common().Args[pi])
+						if !ok {
+							c.Unknown(nil, "eventCacheEvsIndexKey", "What=?", P.Pos(ci.Pos()), "key kind passed to "+fname(c, fn)+" is not a constant")
+							continue
+						}
+						ks = append(ks, k)
+					}
+				}
+			} else {
+				return
+			}
+			for _, k := range ks {
+				n++
+				if byWhat[k] == nil {
+					byWhat[k] = map[string][]string{}
+				}
+				byWhat[k][t] = append(byWhat[k][t], fname(c, fn)+"@"+P.Pos(a.Pos()))
+			}
 		})
 	}
 	c.CountSites(n)
@@ -307,21 +335,8 @@ func runIdxScan(c *core.Ctx) {
 		if n, st := structOf(fa); n != nil && n.Obj().Name() == "ReqFilter" && o.Path(fa.X) == fp {
 			name := an.FieldNameHook(st, fa.Field)
 			for _, r := range *fa.Referrers() {
-				u, isLoad := r.(*ssa.UnOp)
-				if !isLoad || u.Referrers() == nil {
-					continue
-				}
-				for _, use := range *u.Referrers() {
-					switch use.(type) {
-					case *ssa.Range, *ssa.Index, *ssa.IndexAddr, *ssa.Lookup:
-						keyed[name] = true
-					case *ssa.Call:
-						if cc := use.(*ssa.Call); cc.Common().Value != nil {
-							if b, isB := cc.Call.Value.(*ssa.Builtin); isB && b.Name() == "len" {
-								keyed[name] = true
-							}
-						}
-					}
+				if u, isLoad := r.(*ssa.UnOp); isLoad && readAsCollection(u, 0) {
+					keyed[name] = true
 				}
 			}
 		}
@@ -332,6 +347,39 @@ func runIdxScan(c *core.Ctx) {
 	c.Check(setList(tested) == setList(keyed) && setList(tested) == "Authors,IDs,Kinds,Tags" && allNil, nil, fname(c, find), "fields", P.Pos(find.Pos()),
 		"full scan ⇔ {"+setList(tested)+"} all nil = the fields that contribute index keys",
 		fmt.Sprintf("the index path answers 'not indexed' after testing {%s} (only when all nil: %v) but index keys are built from {%s}: a filter can reach the index path with no key set (index out of range) or ignore a condition", setList(tested), allNil, setList(keyed)))
+}
+
+// readAsCollection: the elements (or the length) of v are read — here or in
+// a module function v is handed to.
+func readAsCollection(v ssa.Value, depth int) bool {
+	if v.Referrers() == nil || depth > 3 {
+		return false
+	}
+	for _, use := range *v.Referrers() {
+		switch x := use.(type) {
+		case *ssa.Range, *ssa.Index, *ssa.IndexAddr, *ssa.Lookup:
+			return true
+		case *ssa.Slice:
+			if readAsCollection(x, depth+1) {
+				return true
+			}
+		case *ssa.Call:
+			if b, isB := x.Call.Value.(*ssa.Builtin); isB {
+				if b.Name() == "len" {
+					return true
+				}
+				continue
+			}
+			if g := an.StaticCallee(&x.Call); an.InModuleFn(g) && len(g.Params) == len(x.Call.Args) {
+				for i, a := range x.Call.Args {
+					if a == v && readAsCollection(g.Params[i], depth+1) {
+						return true
+					}
+				}
+			}
+		}
+	}
+	return false
 }
 
 func runOrdDesc(c *core.Ctx) {
@@ -535,6 +583,14 @@ func runIdxIntersect(c *core.Ctx) {
 			union = true
 		}
 	})
+	// the same through the standard library: maps.Copy(set, idx[key])
+	an.Region(find, nil, func(o an.Occ) {
+		if call, ok := o.In.(*ssa.Call); ok && an.CalleeName(&call.Call) == "maps.Copy" && len(call.Call.Args) == 2 {
+			if strings.HasPrefix(o.Path(call.Call.Args[1]), "recv.idx[") {
+				union = true
+			}
+		}
+	})
 	c.Check(union, nil, fname(c, find), "union-within-condition", P.Pos(find.Pos()), "events of every key of a condition are united into that condition's candidate set", "the candidate set of a condition is not the union over its keys")
 	// (b) intersection: a candidate of the base set that is missing from another set is
 	// deleted, and the "other set" runs over every position of the list but the base's
@@ -558,6 +614,37 @@ func runIdxIntersect(c *core.Ctx) {
 				inter = true
 				other = lk.X
 			}
+		}
+	})
+	// the same through the standard library: maps.DeleteFunc(base, func(k, _) bool { _, found := other[k]; return !found })
+	an.Region(find, nil, func(o an.Occ) {
+		call, ok := o.In.(*ssa.Call)
+		if !ok || an.CalleeName(&call.Call) != "maps.DeleteFunc" || len(call.Call.Args) != 2 {
+			return
+		}
+		pred := funcValue(call.Call.Args[1])
+		if pred == nil || len(pred.Params) != 2 {
+			return
+		}
+		allMiss := true
+		var set ssa.Value
+		for _, rb := range an.ReturnBlocks(pred) {
+			rv := an.ReturnValues(an.LastInstr(rb).(*ssa.Return))[0]
+			v, pol := stripNot(rv, true)
+			ex, isEx := v.(*ssa.Extract)
+			if !isEx || ex.Index != 1 || pol {
+				allMiss = false
+				continue
+			}
+			lk, isLk := ex.Tuple.(*ssa.Lookup)
+			if !isLk || !lk.CommaOk || lk.Index != ssa.Value(pred.Params[0]) {
+				allMiss = false
+				continue
+			}
+			set = an.LoadedValue(resolveFree(lk.X))
+		}
+		if allMiss && set != nil {
+			inter, other = true, set
 		}
 	})
 	loopOK, loopWhy := false, "the set tested for membership is not an element of the list of candidate sets"
